@@ -62,6 +62,7 @@ class Check(BaseCheck):
         extract.gen_heat()
         extract.gen_misc()
         extract.gen_vertex_measures()
+        extract.gen_solver_glue()
 
     def problems(self, seed, n_tri, n_tet):
         rng = gen.rng_for(seed, "c07")
